@@ -245,6 +245,23 @@ FORMS["TextShadow"] += [
   sp.TextShadowType((Shadow(L(1, U.em), L(2, U.em)), Shadow(L(1, U.em), L(1, U.em), L(1, U.em)), Shadow(L(1, U.em), L(2, U.em), L(2, U.px)))),
   sp.TextShadowType((Shadow(L(1, U.px), L(2, U.px), L(1, U.px)), Shadow(L(1, U.em), L(2, U.em), L(1, U.em)))),
 ]
+# text shadows of two and three shadows with a pixel length in exactly ONE position (x offset, y offset or blur radius of any one shadow)
+def _one_px_shadows():
+  out = []
+  for n in (2, 3):
+    for k in range(n):
+      for pos in range(3):
+        sh = []
+        for i in range(n):
+          comp = [L(1, U.px) if (i == k and j == pos) else L(1 + i, U.em) for j in range(3)]
+          # the other shadows: with and without a blur radius
+          blur = comp[2] if (i == k and pos == 2) or (i + k) % 2 == 0 else None
+          sh.append(Shadow(comp[0], comp[1], blur, RED if i % 2 else None))
+        out.append(sp.TextShadowType(tuple(sh)))
+  return out
+
+
+FORMS["TextShadow"] += _one_px_shadows()
 assert sorted(FORMS) == sorted(p.__name__ for p in SP.ALL), "the value-form catalogue must cover every style property of the model"
 PROPS = sorted(SP.ALL, key=lambda p: p.__name__)
 
